@@ -115,6 +115,18 @@ namespace
                 if (k != m.size()) violate(std::string("C14/sequence@") + when, "%s: begin()..end() spans %zu elements, reference %zu", when, k, m.size());
                 if (!m.empty() && (val_of(x.front()) != m.front() || val_of(x.back()) != m.back() || val_of(x[m.size() - 1]) != m.back()))
                     violate(std::string("C14/front-back@") + when, "%s: front()/back()/operator[] differ from the reference", when);
+#ifndef C14_TWIN
+                {
+                    // the const half of the interface
+                    const SV &cx = x;
+                    size_t q = 0;
+                    for (auto it = cx.begin(); it != cx.end(); ++it, ++q)
+                        if (q < m.size() && val_of(*it) != m[q]) violate(std::string("C14/sequence@") + when, "%s: const iteration: element %zu differs from the reference", when, q);
+                    if (q != m.size() || cx.data() != x.data()) violate(std::string("C14/sequence@") + when, "%s: const begin()..end() spans %zu elements, reference %zu", when, q, m.size());
+                    if (!m.empty() && (val_of(cx.front()) != m.front() || val_of(cx.back()) != m.back()))
+                        violate(std::string("C14/front-back@") + when, "%s: const front()/back() differ from the reference", when);
+                }
+#endif
             }
             check_deferred();
         };
